@@ -186,7 +186,7 @@ AlgoSomePath(froms, tos, showHidden) ==
           [t \in Nodes |-> {}], showHidden)
 
 \* ---------------- inputs
-Levels == [i \in 1..(N + 1) |-> i - 2]                 \* -1 (unlimited), 0 .. N-1 (longest possible path)
+Levels == [i \in 1..N |-> i - 2]     \* -1 (unlimited), 0 .. N-2 (N-1 is the longest path: the same as unlimited)
 Bools == <<FALSE, TRUE>>
 
 ParOK(p) == /\ \A t \in Nodes : p[t] # t /\ (p[t] # 0 => p[p[t]] = 0)
